@@ -6,6 +6,8 @@ import (
 	"fmt"
 	"os"
 	"runtime"
+	"runtime/debug"
+	"runtime/pprof"
 	"strings"
 	"sync"
 	"time"
@@ -30,7 +32,15 @@ func main() {
 	flag.BoolVar(&opts.verbose, "v", false, "verbose")
 	flag.IntVar(&wallSec, "wall", 0, "wall budget per harness in seconds (0 = none)")
 	flag.Int64Var(&opts.seed, "seed", 0, "seed")
+	var cpuprof string
+	flag.StringVar(&cpuprof, "cpuprofile", "", "write a CPU profile")
 	flag.Parse()
+	debug.SetGCPercent(400)
+	if cpuprof != "" {
+		f, _ := os.Create(cpuprof)
+		pprof.StartCPUProfile(f)
+		defer pprof.StopCPUProfile()
+	}
 	if tier == "thorough" {
 		opts.tier = 1
 	}
